@@ -39,7 +39,7 @@ def display_issue(src, out):
     head_nl = disp.find("\n")
     body = disp[head_nl + 1:tail]
     k = body.rfind("\n")
-    if k < 0 or not body[k + 1:].rstrip(" ").endswith("^") and body[k + 1:].strip() != "^":
+    if k < 0 or body[k + 1:].strip(" ") != "^":
         return "display-format", "no cursor mark line: %r" % disp[:80]
     quoted = body[:k]
     if not quoted.startswith("    "):
@@ -49,10 +49,10 @@ def display_issue(src, out):
     cursor = min(max(cursor, 0), len(src))
     ln, lines = fg.line_of(src, cursor)
     want = lines[ln]
-    if "\x00" in quoted and "\x00" not in want:
-        return "display-quote:nul-appended", "quoted line %r contains U+0000 which is not in the source line %r" % (quoted, want)
     if "\n" in quoted or "\r" in quoted:
         return "display-quote:spans-lines", "quoted text %r spans more than one line of the source" % quoted
+    if "\x00" in quoted and "\x00" not in want:
+        return "display-quote:nul-appended", "quoted line %r contains U+0000 which is not in the source line %r" % (quoted, want)
     if quoted != want and quoted != want.lstrip(" \t") and not (want.endswith(quoted) and want[:len(want) - len(quoted)].strip(" \t") == ""):
         if quoted in [l for l in lines] or quoted in [l.lstrip(" \t") for l in lines]:
             return "display-quote:wrong-line", "quoted %r is not the line of the cursor (%r)" % (quoted, want)
